@@ -63,6 +63,18 @@ fam(r"crrl::ed(25519|448)::PublicKey::decode", ["C07", "C06"], [
     g(call(r"Point::decode", r"buf"), "public key A is decoded with the strict point decoder"),
 ])
 
+# ---------------- C06 / C20: the neutral test of the quotient groups ----------------
+fam(r"crrl::ristretto255::Point::isneutral", ["C06", "C20"], [
+    g(call(r"GF255::iszero", ANY, r"Point::isneutral"), "a ristretto255 element is neutral iff X = 0 or Y = 0 of its Edwards representative (four representatives: (0,1), (0,-1), (i,0), (-i,0)): both coordinates are tested"),
+], forbid=[g(r"call:Point::isneutral\([^@]*\)@Point::isneutral#\d+", "the Edwards point's own isneutral() recognises only (0,1): the group neutral has other representatives")])
+fam(r"crrl::decaf448::Point::isneutral", ["C06", "C20"], [
+    g(call(r"GF448::iszero", ANY, r"Point::isneutral"), "a decaf448 element is neutral iff X = 0 of its Edwards representative ((0,1) or (0,-1))"),
+], forbid=[g(r"call:Point::isneutral\([^@]*\)@Point::isneutral#\d+", "the Edwards point's own isneutral() recognises only (0,1)")])
+
+fam(r"crrl::(p256|secp256k1)::Point::encode_(compressed|uncompressed)", ["C06"], [
+    g(r"call:\w+::iszero\(self\.Z\)@Point::\w+#\d+", "SEC1: the point at infinity (Z = 0 in Jacobian coordinates) gets the all-zero encoding: the neutral flag is derived from Z, not from an affine coordinate (P-256 has two points with x = 0)"),
+])
+
 # ---------------- C06: group decoders (status word of set_decode) ----------------
 fam(r"crrl::ed25519::Point::set_decode", ["C06"], [
     g(len_eq("buf", 32), "length 32"),
@@ -267,6 +279,17 @@ INDEPENDENT = [
 ]
 
 
+NONCE_INPUT = [
+    dict(fn=r"crrl::(p256|secp256k1)::PrivateKey::sign_hash", param="hv", props=["C08"],
+         why="RFC 6979 section 3.2: the PRF input is bits2octets(h) = int2octets(bits2int(h) mod q), not the raw hash bytes"),
+]
+
+TILING = [
+    dict(fn=r"crrl::frost::[a-z0-9]+::\w+::decode", props=["C15"],
+         why="FROST wire formats are concatenations of fixed-size fields: every byte of the input belongs to exactly one field"),
+]
+
+
 REJECT_CONFIGS = ["x64", "x64-w32", "x64-m51"]
 
 
@@ -336,7 +359,7 @@ def main():
                         include_out=fam_["include_out"], optional=fam_["optional"], matched_today=len(matched)))
     tab = dict(_comment="G3 required gates / G1 forbidden flows. Generated by tools/gen_gates.py from the conjunct classes written "
                "there (spec references in 'why'); 'min' = number of distinct matching check facts reaching the result on the "
-               "reviewed tree.", functions=out, call_args=CALL_ARGS, independent=INDEPENDENT, failmask=FAILMASK, maskbytes=MASKBYTES)
+               "reviewed tree.", functions=out, call_args=CALL_ARGS, independent=INDEPENDENT, failmask=FAILMASK, maskbytes=MASKBYTES, tiling=TILING, nonce_input=NONCE_INPUT)
     json.dump(tab, open(os.path.join(os.path.dirname(os.path.dirname(os.path.abspath(__file__))), "tables", "gates.json"), "w"), indent=1)
     print("families", len(out), "gates", sum(len(x["gates"]) for x in out), "rejecting", sum(1 for x in out for y in x["gates"] if y.get("rejects")), "problems", problems)
 
